@@ -360,6 +360,11 @@ def resolve(spec):
         return union(resolve(spec[1]), resolve(spec[2]))
     if k == "i3":
         return I3_nets()[spec[1]]
+    if k == "api":  # base network with new names, declared through the API in the given (unsorted) order
+        base = resolve(spec[1])
+        net = Net(list(spec[2]), base.tables, base.inputs)
+        net.api_order = True
+        return net
     if k == "desc":
         d = spec[1]
         return Net(d["names"], d["tables"], d.get("inputs", ()))
